@@ -288,7 +288,7 @@ package authf
 //@   ensures [C05] readBuf.buf.i >= p0
 //@   ensures [C05] validR(readBuf)
 //@   loop 0 modifies elems(st.VObjName), readBuf.buf.i, readBuf.depth
-//@   loop 0 invariant [C05] validR(readBuf) && readBuf.buf.i >= p0 && st != nil && len(st.VObjName) == e0
+//@   loop 0 invariant [C05] validR(readBuf) && readBuf.buf.i >= p0 && st != nil && len(st.VObjName) == e0 && 0 <= i0
 //@   safety [C05]
 //
 //@ func (*TokenRequest).ReadBlock
@@ -324,7 +324,7 @@ package authf
 //@   perreturn
 //@   ensures [C04] (ok1 && err == nil) ==> st.SObjName == (k1 == 0 ? decStrV(src, q0, 1, d0) : old(st.SObjName))
 //@   ensures [C06] (k1 == 2) ==> err != nil
-//@   loop 0 invariant [C05] validR(readBuf) && readBuf.buf.i >= p0 && st != nil && st.MTokens != nil
+//@   loop 0 invariant [C05] validR(readBuf) && readBuf.buf.i >= p0 && st != nil && st.MTokens != nil && 0 <= i0
 //@   safety [C05]
 //
 //@ func (*TokenResponse).ReadBlock
